@@ -581,6 +581,13 @@ class System:
             if not isinstance(comp, PMux):
                 raise ValueError("PMux cannot be changed to other type!")
 
+        # can only have one pmux
+        if (
+            comp._component_type == _ComponentTypes.PMUX
+            and self._g[eidx]._component_type != _ComponentTypes.PMUX
+            and self._get_pmux() != -1
+        ):
+            raise ValueError("a system can only have one PMux")
         # a component that has childs cannot become a load
         if (
             comp._component_type == _ComponentTypes.LOAD
